@@ -14,12 +14,12 @@ from props.c24 import parse_reply
 
 class C21(Prop):
     pid = "C21"
-    lean_modules = ["UflVerif.Props.C21"]
-    min_theorems = 3
+    lean_modules = ["UflVerif.Props.C21", "UflVerif.Props.C05Rebuild"]
+    min_theorems = 8
     trusted = ["correspondence harness/props/c21.py + Drivers/Expr.lean `(replace e (key img)*)`",
                "modelled rather than verified: mappings are keyed by terminals (the Replacer looks every node up); `expand_derivatives` before replacing forms with CoefficientDerivative is not modelled"]
-    assumptions = ["images have the shape of the terminal they replace and no free indices; mapped terminals do not occur under grad (the value of grad(image) is outside the denotational semantics)",
-                   "the theorem is the substitution lemma for plain substitution; that rebuilding through the constructors preserves values is C05"]
+    assumptions = ["images have the shape of the terminal they replace and no free indices (MapOKOn m e, decidable); mapped terminals do not occur under grad (the value of grad(image) is outside the denotational semantics)",
+                   "C21_replace_value_partial covers the rebuild through the constructors under the decidable side conditions ReplOK (no list-tensor collapse / component-tensor shortcut / 0**0 at a rebuilt node) and LitSem (literal folding agrees with the valuation's abs, conj, power on literals)"]
 
     def gen_case(self, rng, k):
         import ufl
